@@ -19,6 +19,9 @@ type c15State struct {
 	iterErr         error
 	deleted         bool
 	gcErr           error
+	snapVal         string
+	snapRead        bool
+	newA            string
 }
 
 func init() {
@@ -94,8 +97,30 @@ func init() {
 				x.hooks["compact.built"] = func() { st.compactDuringGC = st.gcRunning }
 				runOnceAs(x.db, 0)
 			}}
-			if x.j.Str("variant", "iter") == "iter" {
+			// a snapshot opened before a newer version of key a is committed, flushed and compacted
+			// to the last level while the GC rewrite may be in flight: the snapshot must keep
+			// reading the old version (compaction may only discard below the real read watermark)
+			snap := sched.Thread{Name: "S", Body: func() {
+				x.s.Point("op")
+				txn := x.db.NewTransaction(false)
+				defer txn.Discard()
+				st.newA = string(val("A-new-", 200))
+				if err := x.db.Update(func(t2 *Txn) error { return t2.Set([]byte("a"), []byte(st.newA)) }); err != nil {
+					panic(err)
+				}
+				x.s.Point("op")
+				x.flushBlocking()
+				x.s.Point("op")
+				runOnceAs(x.db, 0)
+				x.s.Point("op")
+				st.snapVal = getStr(txn, "a")
+				st.snapRead = true
+			}}
+			switch x.j.Str("variant", "iter") {
+			case "iter":
 				return []sched.Thread{gc, iter}
+			case "snapshot":
+				return []sched.Thread{gc, snap}
 			}
 			return []sched.Thread{gc, del}
 		},
@@ -107,9 +132,18 @@ func init() {
 			if st.iterSaw && (st.iterErr != nil || st.iterVal != st.origA) {
 				return "", fmt.Sprintf("iterator item of key a, held in an open transaction across the GC, reads %q (err %v) instead of its 200-byte value", shortVal(st.iterVal), st.iterErr), "iterator-item-unreadable"
 			}
+			if st.snapRead && st.snapVal != st.origA {
+				return "", fmt.Sprintf("a snapshot opened before key a was overwritten reads %q after flush + compaction (during/after a value-log GC), it must still read the old 200-byte value", shortVal(st.snapVal)), "snapshot-read-changed"
+			}
 			txn := x.db.NewTransaction(false)
 			defer txn.Discard()
 			a, b := getStr(txn, "a"), getStr(txn, "b")
+			if st.newA != "" {
+				if a != st.newA {
+					return "", fmt.Sprintf("key a reads %q after overwrite + GC", shortVal(a)), "value-changed"
+				}
+				a = st.origA // the remaining checks compare against the original
+			}
 			if st.deleted && a != "<nil>" {
 				// F12 (known): the tombstone is compacted away AFTER the rewrite finished, while the
 				// written-back old version sits above it.  A tombstone dropped WHILE the rewrite is in
